@@ -50,6 +50,7 @@ class Frame:
         # parameter -> (argument path expression, caller frame), for
         # parameters bound to a plain name / attribute path
         self.bindings = {}
+        self.arg_exprs = {}     # param -> (any argument expression, frame)
         self.children = []
         if parent is not None:
             parent.children.append(self)
@@ -1205,6 +1206,8 @@ class Builder:
             b = self._emit('bind', None, callee)
             b.extra.update(param=pname, arg=arg, arg_frame=af,
                            default=default, is_self=False)
+            if arg is not None:
+                callee.arg_exprs[pname] = (arg, af)
             if arg is not None and (isinstance(arg, (ast.Name,
                                                      ast.Attribute)) or (
                     isinstance(arg, ast.Call) and
